@@ -52,7 +52,16 @@ pub fn pool(ctx: &Ctx) -> Result<&'static Pool, String> {
 }
 
 fn signal_len_value(kind: u8, len: usize, tail: usize) -> u64 {
-    match kind % 9 {
+    match kind % 16 {
+        // the real length (or length + tail) with only high bits added: what a reader that looks at a
+        // part of the 8-byte field would still take for the real length
+        9 => len as u64 + (1u64 << 32),
+        10 => len as u64 + (3u64 << 32),
+        11 => len as u64 + (1u64 << 16),
+        12 => len as u64 + (1u64 << 8),
+        13 => len as u64 + (1u64 << 48),
+        14 => len as u64 + (1u64 << 63),
+        15 => (len + tail) as u64 + (1u64 << 32),
         0 => 0,
         1 => (len as u64).wrapping_sub(1),
         2 => len as u64 + 1,
@@ -167,7 +176,7 @@ impl Property for C13 {
         "C13"
     }
     fn rule(&self) -> String {
-        "byte strings for verify / verify_rln_proof / verify_with_roots (message and roots buffers) / recover_id_secret (both buffers; each altered message is paired with another member's message, with itself and — in both orders — with the unaltered message it was derived from, which yields equal x with different y), derived from a pool of accepted messages: truncation to a generated length (and every truncation length, enumerated, for the first pool message), declared signal length in {0, len-1, len+1, 2^31, 2^32, 2^63, u64::MAX-7, u64::MAX, len+tail}, random bytes in one 32-byte field, fully random strings of length 0..600+, aliases v+k*p (k=1..4) of any subset of the five public values, single bit flips, trailing garbage, arbitrary roots buffers and root sets with a trailing partial element. \
+        "byte strings for verify / verify_rln_proof / verify_with_roots (message and roots buffers) / recover_id_secret (both buffers; each altered message is paired with another member's message, with itself and — in both orders — with the unaltered message it was derived from, which yields equal x with different y), derived from a pool of accepted messages: truncation to a generated length (and every truncation length, enumerated, for the first pool message), declared signal length in {0, len-1, len+1, 2^31, 2^32, 2^63, u64::MAX-7, u64::MAX, len+tail, len + 2^k for k in 8/16/32/48/63, len + 3*2^32}, random bytes in one 32-byte field, fully random strings of length 0..600+, aliases v+k*p (k=1..4) of any subset of the five public values, single bit flips, trailing garbage, arbitrary roots buffers and root sets with a trailing partial element. \
          Oracle: never a panic; true only if proof and value bytes are identical to the accepted message's canonical bytes, Keccak_ref(signal) = x and the root condition holds; and an input that still is the accepted message must be accepted. \
          non-trivial = truncation inside a field, an inconsistent length field, an alias, a bit flip or random field content; distinct by case content".into()
     }
